@@ -277,6 +277,64 @@ def adjustVoiceEnd (x : SmpInfo) (isMod release sampleLoop : Bool) : Int × Int 
     if x.loopFull && !sampleLoop then (x.lps, x.len, false) else (x.lps, x.lpe, x.loopBidir)
   else (0, x.len, false)
 
+/-! ## Which sample invert-loop acts on: the channel's `xc->smp` versus the sample its voice plays
+
+`update_invloop` writes into sample `xc->smp`.  The property allows that only for "the sample the effect is
+applied to", i.e. the one sounding on that channel: the voice mapped to the channel plays it, or has it queued
+by a Protracker sample swap (src/read_event.c `read_event_mod`, src/virtual.c `libxmp_virt_queuepatch`,
+src/mixer.c hot swap). -/
+
+/-- channel/voice agreement state -/
+structure ChanVoice where
+  chanSmp : Int := -1       -- xc->smp
+  mapped : Bool := false    -- p->virt.virt_channel[chn].map > FREE
+  voiceSmp : Int := -1      -- vi->smp
+  queued : Bool := false    -- vi->flags & SAMPLE_QUEUED
+  queuedSmp : Int := -1     -- vi->queued.smp
+  paused : Bool := false    -- vi->flags & SAMPLE_PAUSED (the voice is silent)
+  deriving Repr, DecidableEq
+
+/-- Channel and voice agree on the sample: with a swap queued, the queued sample is the channel's (or "none":
+the voice is about to stop); otherwise the voice plays the channel's sample or is paused.  A channel without a
+voice cannot disagree. -/
+def ChanVoice.coherent (s : ChanVoice) : Bool :=
+  !s.mapped ||
+    (if s.queued then decide (s.queuedSmp < 0) || s.queuedSmp == s.chanSmp else s.paused || s.voiceSmp == s.chanSmp)
+
+/-- what happens to the pair -/
+inductive CVStep where
+  /-- a note with a valid sample: `set_patch(ctx, chn, ins, smp, note); xc->smp = smp;`
+      (`libxmp_mixer_setpatch` clears `SAMPLE_QUEUED | SAMPLE_PAUSED`) -/
+  | noteOn (sid : Int)
+  /-- Protracker sample swap (instrument number without note):
+      `libxmp_virt_queuepatch(ctx, chn, e->ins - 1, sub->sid, xc->note); xc->smp = sub->sid;` -/
+  | ptSwap (sid : Int)
+  /-- an invalid instrument queues "no sample": `libxmp_virt_queuepatch(ctx, chn, -1, -1, 0)` -/
+  | queueInvalid
+  /-- the mixer takes a valid queued sample (loop end reached, paused voice, or position change): `hotswap_sample` -/
+  | hotswap
+  /-- the mixer drops an invalid / one-shot-for-one-shot queue and pauses the voice -/
+  | swapStop
+  /-- the voice is stolen / reset -/
+  | unmap
+  deriving Repr
+
+def cvStep (s : ChanVoice) : CVStep → ChanVoice
+  | .noteOn sid => { s with chanSmp := sid, mapped := true, voiceSmp := sid, queued := false, paused := false }
+  | .ptSwap sid =>
+    if s.mapped then { s with chanSmp := sid, queued := true, queuedSmp := sid }
+    else { s with chanSmp := sid, mapped := true, voiceSmp := sid, queued := false, paused := false }  -- libxmp_virt_setpatch
+  | .queueInvalid => if s.mapped then { s with queued := true, queuedSmp := -1 } else s
+  | .hotswap =>
+    if s.mapped && s.queued && decide (0 ≤ s.queuedSmp) then { s with voiceSmp := s.queuedSmp, queued := false, paused := false }
+    else s
+  | .swapStop => if s.mapped && s.queued then { s with queued := false, paused := true } else s
+  | .unmap => { s with mapped := false, queued := false, paused := false }
+
+def cvRun : ChanVoice → List CVStep → ChanVoice
+  | s, [] => s
+  | s, t :: r => cvRun (cvStep s t) r
+
 /-! ## The one legal writer: `update_invloop` (src/player.c), Protracker invert-loop / funk repeat -/
 
 /-- `xc->invloop` -/
